@@ -20,6 +20,7 @@ func init() {
 			"R4 per-site bindings — in FileReplacer.Replace the data handed to the node replacer and the (parent, name, index) that designate the slot are fields of the same SearchResult element of the loop; " +
 			"R5 data key/value type agreement of every Lookup/WithValue pair; R6 the matched slot is assigned exactly when the produced value's type is AssignableTo the slot (assigned only under the test, and the test's true edge always reaches the assignment — a site is left unchanged only when the replacement is not admissible); " +
 			"R7 matching and replacing never write into the compiled program (matchers, replacers, compilers, Meta): a capture is a pure function of the matched value, no cache. " +
+			"R8 every recorded site is rewritten; R9 what a metavariable captures is the code at the matched position — every matcher hands its sub-matchers projections (Elem / Field / Index / list elements) of its own candidate, never a rebuilt value (parentheses looked through, reflect.ValueOf of a part). " +
 			"NOT decided: that the instantiation is textually the '+' pattern (go/printer), position bookkeeping, which sites are chosen.",
 		Trusted:     commonTrusted,
 		Assumptions: commonAssumptions,
@@ -343,7 +344,7 @@ func c03PerSiteBindings(r *an.Run) {
 	if f == nil {
 		return
 	}
-	ils := findIndexLoops(f, isLenOfPath("fd.Matches"))
+	ils := findIndexLoopsGroup(f, isLenOfPathIn(f, "fd.Matches"))
 	if !r.Check(len(ils) == 1, short(f)+"|loop", f.Pos(), "one loop over fd.Matches") {
 		return
 	}
@@ -352,7 +353,7 @@ func c03PerSiteBindings(r *an.Run) {
 	var elem ssa.Value
 	for b := range il.Loop.Blocks {
 		for _, in := range b.Instrs {
-			if u, ok := in.(*ssa.UnOp); ok && elemOf(u, "fd.Matches", il.Index) {
+			if u, ok := in.(*ssa.UnOp); ok && elemOfIn(f, u, "fd.Matches", il.Index) {
 				elem = u
 			}
 		}
@@ -425,6 +426,9 @@ func c03SlotAlwaysAssignedWhenAdmissible(r *an.Run) {
 	f := fn(r, engine, "FileReplacer.Replace")
 	if f == nil {
 		return
+	}
+	if _, holder, _ := matchLoop(r); holder != nil {
+		f = holder // the node stage may live in a helper of Replace
 	}
 	sets := an.CallsTo(f, rvSet)
 	n := 0
